@@ -125,8 +125,13 @@ fn markdown_comments_parser() -> anyhow::Result<impl CommentsParser> {
             result.push_str(&comment[..prefix_idx]);
             // Replace "[//]:" with spaces.
             result.push_str("     ");
-            // Replace everything before the open delimiter with spaces (including the delimiter).
-            result.push_str(" ".repeat(open_idx - (prefix_idx + 5) + 1).as_str());
+            // Replace everything before the open delimiter with spaces (including the delimiter),
+            // keeping the line breaks: the title may start on the line after the destination.
+            result.extend(
+                comment.as_bytes()[prefix_idx + 5..=open_idx]
+                    .iter()
+                    .map(|&b| if b == b'\n' { '\n' } else { ' ' }),
+            );
             // Copy the comment's content.
             result.push_str(&comment[open_idx + 1..close_idx]);
             // Replace the close delimiter with a space.
